@@ -225,12 +225,15 @@ def chainInputs : List Disc → List String → List String
     (d.ins.map (fun p => p.1)).filter (fun n => !produced.contains n)
       ++ chainInputs ds (produced ++ d.outs.map (fun o => o.name))
 
+/-- Inputs of DisciplinaryOpt's top-level discipline: the discipline itself, or `MDOChain(disciplines)`. -/
+def Sys.topInputs (s : Sys) : List String :=
+  match s.discs with
+  | [d] => d.ins.map (fun p => p.1)
+  | ds => chainInputs ds []
+
 /-- DisciplinaryOpt: `_filter_design_space` keeps the inputs of the top-level discipline. -/
 def Sys.doptDS (s : Sys) : DS :=
-  let ins : List String := match s.discs with
-    | [d] => d.ins.map (fun p => p.1)
-    | ds => chainInputs ds []
-  (s.ds.filter (s.ds.names.filter (fun n => ins.contains n))).getD s.ds
+  (s.ds.filter (s.ds.names.filter (fun n => s.topInputs.contains n))).getD s.ds
 
 /-! ### `FunctionFromDiscipline` on a single discipline (IDF, DisciplinaryOpt with one discipline) -/
 
